@@ -85,6 +85,13 @@ let run_case op t =
       let _ = next_int t in let _ = next_int t in let _ = next_int t in
       let ch = next_z t in let n = next_z t in let a = next_zlist t in
       (res_s ptr_s (ct_memchr a ch n), opt_s ptr_s (rt_memchr a ch n))
+  | "strncmp_pre" ->
+      (* unterminated prefixes of exactly len characters: the model / the specification see arrays of that extent *)
+      let _ = next_int t in let _ = next_int t in let _ = next_int t in let _ = next_int t in
+      let _ = next_int t in let len = next_int t in let n = next_z t in
+      let a = next_zlist t in let b = next_zlist t in
+      let rec take k l = if k <= 0 then [] else (match l with [] -> [] | x :: r -> x :: take (k - 1) r) in
+      (res_s okz (ct_strncmp (take len a) (take len b) n), opt_s okz (rt_strncmp (take len a) (take len b) n))
   | "memchr_at" ->
       (* the searched range starts at row + off: the model / the specification see the rest of the array object *)
       (* model: ct_memchr_at of coq/C13/ProofsAt.v (theorem C13_memchr_range) *)
